@@ -324,6 +324,94 @@ def oob_other_dir_scenario(viol):
         pr.destroy()
 
 
+def base_discovery_scenario(viol):
+    """Which project database a command uses must not depend on how its targets are spelled: with `.redo` in p/sub,
+    `$ABS/p/other/../sub/x` and `../other/../sub/x` (run in p/sub) are the x of that project — no second `.redo`
+    appears next to it, x has one record and is built once."""
+    import sqlite3
+    from proj import Project
+    pr = Project()
+    try:
+        os.makedirs(pr.path("p/sub"))
+        os.makedirs(pr.path("p/other"))
+        pr.write("p/sub/x.do", 'echo run >>x.runs\necho hi\n')
+        problems = []
+        rc, o, e = pr.run(["redo-ifchange", "x"], cwd="p/sub")
+        for sp in (pr.path("p/other/../sub/x"), "../other/../sub/x", "./../sub/x", pr.path("p/sub/../sub//x")):
+            rc, o, e = pr.run(["redo-ifchange", sp], cwd="p/sub")
+            if rc != 0:
+                problems.append("redo-ifchange %s (in p/sub) exited %d" % (sp.replace(pr.root, "$ROOT"), rc))
+        dbs = sorted(os.path.relpath(os.path.join(d, ".redo"), pr.root) for d, ds, fs in os.walk(pr.root) if ".redo" in ds)
+        runs = len((pr.read("p/sub/x.runs") or b"").split())
+        if dbs != ["p/sub/.redo"]:
+            problems.append("project databases after the commands: %r (the first command created p/sub/.redo)" % dbs)
+        if runs != 1:
+            problems.append("x.do ran %d times" % runs)
+        if problems:
+            p = write_replay("C15", "base-discovery", dict(kind="impl-monitor", problems=problems, scenario="mkdir -p p/sub p/other; p/sub/x.do; cd p/sub; redo-ifchange x; redo-ifchange $ROOT/p/other/../sub/x; redo-ifchange ../other/../sub/x; …"))
+            viol.append(Violation("C15", p, "the spelling of a target decides which project database is used: " + "; ".join(problems[:3])))
+    finally:
+        pr.destroy()
+
+
+def base_level(ctx, rng, viol):
+    """Project-base discovery, model vs implementation: random small trees with `.redo` directories placed at random
+    levels, a random working directory, one to three existing source files named through random spellings (`..` through
+    sibling directories, `.`, doubled slashes, absolute); `redo-ifchange` is run and the directory whose `.redo` then holds
+    the database is compared with `Base.baseOf`."""
+    from proj import Project
+    stats = dict(commands=0, with_dotdot=0, redo_above=0, created_new=0)
+    dirs_all = ["", "a", "a/b", "a/b/c", "a/d", "e", "e/f"]
+    for i in range(60 if ctx["tier"] == "thorough" else 14):
+        pr = Project()
+        try:
+            for d in dirs_all:
+                os.makedirs(pr.path(d), exist_ok=True)
+                pr.write(os.path.join(d, "src.txt"), "x")
+            redos = [d for d in dirs_all if rng.random() < 0.25]
+            for d in redos:
+                os.makedirs(pr.path(d, ".redo"), exist_ok=True)
+            cwd = rng.choice(dirs_all)
+            cwd_abs = pr.path(cwd) if cwd else pr.root
+            tdirs = [rng.choice(dirs_all) for _ in range(rng.randint(1, 3))]
+            sps = []
+            for td in tdirs:
+                real = os.path.join(pr.root, td, "src.txt") if td else os.path.join(pr.root, "src.txt")
+                form = rng.random()
+                if form < 0.3:
+                    sp = real
+                elif form < 0.6:
+                    sp = os.path.relpath(real, cwd_abs)
+                else:
+                    # through a sibling directory and back, with noise
+                    other = rng.choice([x for x in dirs_all if x])
+                    up = os.path.relpath(pr.root, os.path.join(pr.root, other))
+                    sp = os.path.join(pr.root if rng.random() < 0.5 else os.path.relpath(pr.root, cwd_abs), other, up, td, "." if rng.random() < 0.3 else "", "src.txt").replace("/./src", "//src" if rng.random() < 0.5 else "/./src")
+                    stats["with_dotdot"] += 1
+                sps.append(sp)
+            rc, o, e = pr.run(["redo-ifchange"] + sps, cwd=cwd or ".")
+            stats["commands"] += 1
+            have = sorted(os.path.relpath(d, pr.root) for d, ds, fs in os.walk(pr.root) if os.path.basename(d) == ".redo" and "db.sqlite3" in fs)
+            used = [os.path.dirname(h) for h in have]
+            req = "base-of %s %s %s" % (hx(cwd_abs), ",".join(hx(pr.path(d) if d else pr.root) for d in redos) or "-", ",".join(hx(x) for x in sps))
+            m = run_lines(MODEL, [req])[0]
+            want = unhx(m).decode() if m != "bad-op" else m
+            want_rel = os.path.relpath(want, pr.root) if want.startswith("/") else want
+            want_rel = "" if want_rel == "." else want_rel
+            if want_rel in redos or any(pr.path(want_rel).startswith(pr.path(r)) for r in redos if r == want_rel):
+                stats["redo_above"] += 1
+            else:
+                stats["created_new"] += 1
+            if rc != 0 or used != [want_rel]:
+                p = write_replay("C15", "base-level", dict(kind="model-vs-impl", layer="Base.baseOf (Env::init)", request=req, cwd=cwd or ".", redo_dirs=redos, spellings=[x.replace(pr.root, "$ROOT") for x in sps],
+                                                           model=want_rel or ".", implementation=used, rc=rc, stderr=e[-300:]))
+                viol.append(Violation("C15", p, "project base: `redo-ifchange %s` run in %s with .redo in %r used the database in %r, the model says %r" % (" ".join(x.replace(pr.root, "$ROOT") for x in sps), cwd or ".", redos, used, want_rel or "."), no_input=True))
+                return stats
+        finally:
+            pr.destroy()
+    return stats
+
+
 def run(ctx):
     rng = random.Random(ctx["seed"])
     thorough = ctx["tier"] == "thorough"
@@ -395,6 +483,9 @@ def run(ctx):
     prc = process_level(ctx, rng, viol) if not viol else {}
     if not viol:
         oob_other_dir_scenario(viol)
+    if not viol:
+        base_discovery_scenario(viol)
+    bsl = base_level(ctx, random.Random(ctx["seed"] * 103 + 15), viol) if not viol else {}
     fss = fs_semantics_level(ctx, random.Random(ctx["seed"] * 101 + 15), viol) if not viol else {}
     distinct = len(set(lines))
     nontrivial = len(set(l for l, r in zip(lines, impl) if l.split(" ", 1)[0] != "normpath" or hx(l) != r and unhx(l.split()[1]) != unhx(r)))
@@ -402,5 +493,5 @@ def run(ctx):
                 rule="all strings over {/ . a b} up to length %d, plus seeded random multi-component paths (unicode, spaces, dots); non-trivial = the function changes its input (normpath) or any abspath/relpath request; distinct by request text" % maxlen,
                 samples=[dict(request=lines[i], model=m[i], impl=impl[i]) for i in (5, 300, n_norm + 3, off + 7)],
                 exhaustive=False, disagreements_checked=len(lines), distinct_requests=distinct,
-                distribution=dict(normpath=n_norm, abspath=len(pairs), relpath=len(rel), symlink_tree=sym, two_spellings=prc, fs_semantics=fss),
+                distribution=dict(normpath=n_norm, abspath=len(pairs), relpath=len(rel), symlink_tree=sym, two_spellings=prc, fs_semantics=fss, base_discovery=bsl),
                 explanation="exhaustive over the small alphabet up to the stated length; random beyond")
